@@ -61,6 +61,10 @@ CHECKS = {
          "Exploration. Programs with 1-4 sinks over overlapping kind patterns (distinct priorities) whose bodies derive locals from event.state, call a shared global function, loop with block-local lets, interpolate strings, update a global inside a mutex block and then succeed or raise(type, detail, data) built from the event's own id; 50-400 events are fired from 2-16 concurrent goroutines with AddEventAndWait (a quarter of the cases through a relay sink that re-adds them with addEvent). Per event the echoed locals, helper result, interpolated text, event.name/state, the set of sinks that ran (fail-on-first-error prefix) and the error report (exactly the failing sink, with that invocation's type/detail/data and event) must be what the payload dictates; the mutex-protected global equals the number of increments. The test binary is built with -race: after every case the detector's log is read and a report whose two access sites both lie in interpreter/ or scope/ is a violation (races elsewhere are counted, not reported).",
          "Schedules are sampled; the detector reports only races that occur in an explored execution. Non-trivial = two invocations of one sink overlapped (measured from the recorded start/echo positions).",
          "DESIGN.md 4/C11, 2.7"),
+ "C15": ("rapid-generated programs x breakpoint sets x command sequences x perturbation plans at the suspend/resume hook points; metamorphic comparison with an undebugged run; stop prediction from the baseline line-visit trace; stuck-state rule for resumability",
+         "Exploration with an owned schedule at the debug hook points. Control-flow programs from the C04 generator (a quarter run as a sink body on a pool worker, events sent with addEventAndWait) are debugged with generated breakpoints (set / disabled / removed), breakOnStart / breakOnError, and a command sequence over resume / stepin / stepover / stepout applied round robin by a controller that polls Status() and always continues what is suspended; a decorator around the real debugger records which line each thread visits. Oracles: (1) result, escaping error, observation trace, log and global-scope dump equal the plain run (also with a debugger attached and no breakpoints); (2) every stop after a resume is justified by an active breakpoint / breakOnStart / breakOnError; (3) for resume-only sessions the per-thread stop sequence equals the one computed from the plain run's line-visit trace and the active breakpoints (first visit of every maximal run of one line); (4) after Continue a thread reported suspended must leave its wait (debug.resumed hook) - a directed plan holds the thread between publishing its suspension and waiting until the controller has issued Continue; verdict by the stuck-state rule (no progress, no active hold, three samples, bound >= 5 s).",
+         "Step commands are only checked for transparency, justified stops after resume and resumability (the exact stop positions of stepin/stepover/stepout are not modelled). Sink variants use one worker so thread-local visit sequences are schedule independent. StopThreads is exercised by C16.",
+         "DESIGN.md 4/C15, Appendix B"),
  "C16": ("exhaustive command x debugger-state x argument-class table + rapid-generated command sequences against a live debugger session",
          "Exploration. 15 command words x 14 reachable debugger states (fresh, parsed, finished, running, suspended at top level / inside nested calls, error-suspended, after StopThreads, ...) x typed argument tuples up to arity+1 (valid / running / unknown / negative / huge / non-numeric thread ids, known / unknown / malformed source:line, identifiers, terminating / ill-typed / unparsable expressions, step kinds, garbage) are enumerated completely (31 k cases), plus random sequences of state-changing actions and commands. After every command: HandleInput did not panic; it returned an error or a json.Marshal-able result; a following `status` AND a write-lock probe answer within 5 s; at the end every suspended thread can be resumed and the program completes.",
          "Commands are issued from one goroutine at a time (StopThreads with two suspended threads races on a map: out of the statement, excluded and counted). 'Suspended inside a sink on a pool worker' is not among the states.",
